@@ -649,6 +649,10 @@ pub fn eval_expr(e: &Expr, env: &Env) -> Result<Val, EvalError> {
       Expr::CTop => Val::CTop,
       Expr::CBot => Val::CBot,
       Expr::ProdOf(a, b) => Val::Prod(Box::new(ev(a)?), Box::new(ev(b)?)),
+      Expr::ProdFst(a) => match ev(a)? {
+         Val::Prod(x, _) => *x,
+         other => return Err(EvalError::Bad(format!("ProdFst on {other:?}"))),
+      },
       Expr::Cast(a, ty) => match (ev(a)?, ty) {
          (Val::I(i), t) if t.is_int() => Val::I(i),
          (Val::F(bits), t) if t.is_int() => Val::I(f64::from_bits(bits) as i64),
@@ -660,8 +664,9 @@ pub fn eval_expr(e: &Expr, env: &Env) -> Result<Val, EvalError> {
          Val::B(match op {
             CmpOp::Eq => a == b,
             CmpOp::Ne => a != b,
-            CmpOp::Lt => a.int() < b.int(),
-            CmpOp::Le => a.int() <= b.int(),
+            // integers and tuples of integers (lexicographic, like Rust's tuple Ord)
+            CmpOp::Lt => a < b,
+            CmpOp::Le => a <= b,
          })
       },
       Expr::And(a, b) => Val::B(ev(a)?.boolean() && ev(b)?.boolean()),
